@@ -25,6 +25,8 @@ C17 (rl4co/data/dataset.py, models/rl/reinforce/baselines.py, models/rl/common/b
                               comprehension, or append-loop + cat) (true) / writes slices of a buffer inside the loop (false)
   blRolloutLoaderPlain        its `DataLoader(dataset, batch_size=…, collate_fn=…)` has no `shuffle`, `drop_last`, `sampler` …
   loaderShufflePassthrough    `RL4COLitModule._dataloader_single` passes `shuffle=shuffle`, `batch_size=batch_size`
+  rfCallbackBeforeSuper       `REINFORCE.on_train_epoch_end`: the statement `self.baseline.epoch_callback(…)` comes BEFORE
+                              `super().on_train_epoch_end()` (which regenerates and wraps the next training set) (true) / after (false)
   evalCatInOrder              `EvalBase.__call__`: `torch.cat(rewards_list)` / `torch.cat([pad(a) for a in actions_list], 0)`
   evalPadLeft                 the left amount of `pad(action, (0, max_length - action.size(-1)))` (0 = pad on the right)
 "true"/"false" are both *recognised* shapes; anything else is a pattern-miss.
@@ -613,3 +615,22 @@ def register(ex):
              "tasks/eval.py:EvalBase.__call__  `torch.cat(rewards_list)`, `torch.cat([pad(a) for a in actions_list], 0)`", eval_cat_in_order)
     ex.probe("evalPadLeft", "Nat", "0",
              "tasks/eval.py:EvalBase.__call__  `pad(action, (0, max_length - action.size(-1)))`", eval_pad_left)
+
+    def rf_callback_before_super():
+        fn = _fn("rl4co/models/rl/reinforce/reinforce.py", "REINFORCE.on_train_epoch_end")
+        if fn is None:
+            return None
+        cb = sup = None
+        for k, st in enumerate(_body(fn)):
+            src = _u(st)
+            if "self.baseline.epoch_callback(" in src and cb is None:
+                cb = k
+            if "super().on_train_epoch_end()" in src and sup is None:
+                sup = k
+        if cb is None or sup is None or cb == sup:
+            return None
+        return "true" if cb < sup else "false"
+
+    ex.probe("rfCallbackBeforeSuper", "Bool", "true",
+             "rl/reinforce/reinforce.py:REINFORCE.on_train_epoch_end  `self.baseline.epoch_callback(…)` before `super().on_train_epoch_end()`",
+             rf_callback_before_super)
